@@ -176,7 +176,70 @@ class PosToKw(ast.NodeTransformer):
         return node
 
 
-TRANSFORMS = {'pos2kw': PosToKw, 'rename': Rename, 'swapcmp': SwapCmp, 'pad': Pad, 'ifnot': IfNot, 'unparse': None}
+
+class RetVar(ast.NodeTransformer):
+    """`return <expr>` -> `_ret = <expr>; return _ret` (expr not already a plain name / constant)."""
+    def _fix(self, body):
+        out = []
+        for st in body:
+            if isinstance(st, ast.Return) and st.value is not None and not isinstance(st.value, (ast.Name, ast.Constant)):
+                out.append(ast.Assign(targets=[ast.Name(id='_ret', ctx=ast.Store())], value=st.value, lineno=st.lineno))
+                out.append(ast.Return(value=ast.Name(id='_ret', ctx=ast.Load())))
+            else:
+                out.append(st)
+        return out
+
+    def generic_visit(self, node):
+        node = super().generic_visit(node)
+        if isinstance(node, ast.Lambda):
+            return node
+        for f in ('body', 'orelse', 'finalbody'):
+            b = getattr(node, f, None)
+            if isinstance(b, list) and b and isinstance(b[0], ast.stmt):
+                setattr(node, f, self._fix(b))
+        return node
+
+
+def _terminates(body):
+    return bool(body) and isinstance(body[-1], (ast.Return, ast.Raise, ast.Continue, ast.Break))
+
+
+class ElseAfterExit(ast.NodeTransformer):
+    """guard-clause style <-> if/else: `if c: ...return` followed by the rest  ->  `if c: ...return  else: rest`
+    (only at the end of a function body / loop body, so that nothing follows the new else)."""
+    def _fix(self, body, allowed):
+        if not allowed:
+            return body
+        for i, st in enumerate(body[:-1]):
+            if isinstance(st, ast.If) and not st.orelse and _terminates(st.body):
+                rest = body[i + 1:]
+                st.orelse = self._fix(rest, True)
+                return body[:i + 1]
+        return body
+
+    def visit_FunctionDef(self, node):
+        self.generic_visit(node)
+        node.body = self._fix(node.body, True)
+        return node
+    visit_AsyncFunctionDef = visit_FunctionDef
+
+    def visit_For(self, node):
+        self.generic_visit(node)
+        node.body = self._fix(node.body, True)
+        return node
+    visit_While = visit_For
+
+
+class Msg(ast.NodeTransformer):
+    """Every string literal inside a `raise` (error message) gets a trailing full stop."""
+    def visit_Raise(self, node):
+        for sub in ast.walk(node):
+            if isinstance(sub, ast.Constant) and isinstance(sub.value, str) and sub.value.strip():
+                sub.value = sub.value + '.'
+        return node
+
+
+TRANSFORMS = {'retvar': RetVar, 'elseexit': ElseAfterExit, 'msg': Msg, 'pos2kw': PosToKw, 'rename': Rename, 'swapcmp': SwapCmp, 'pad': Pad, 'ifnot': IfNot, 'unparse': None}
 
 
 def apply_to_package(pkg_dir, name):
